@@ -207,4 +207,18 @@ let run (f : string list) : string * string =
     let m = match try_parse_epsv_reply (str "229 ok (|||" @ portf @ str "|)") with
       | None -> "none" | Some p -> string_of_n p in
     (m, pp)
+  | ["obsround"; live; react] ->
+    (* one notification round: registered observers (in order, duplicates allowed), and for each observer the ones it
+       unregisters when it is told *)
+    let ids s = if s = "-" then [] else List.map int_of_string (String.split_on_char ',' s) in
+    let table = if react = "-" then [] else
+        List.map (fun e -> match String.split_on_char ':' e with
+            | [o; l] -> (int_of_string o, List.map int_of_string (String.split_on_char '.' l))
+            | _ -> failwith "react") (String.split_on_char ';' react) in
+    let react_fn o = let o = int_of_nat o in
+      List.map nat_of_int (try List.assoc o table with Not_found -> []) in
+    let (told, left) = notify_round react_fn (List.map nat_of_int (ids live)) in
+    let show l = if l = [] then "-" else String.concat "," (List.map (fun x -> string_of_int (int_of_nat x)) l) in
+    let m = "told=" ^ show told ^ " live=" ^ show left in
+    (m, m)
   | _ -> ("MODEL-ERROR unknown case kind: " ^ String.concat " " f, "MODEL-ERROR")
